@@ -1179,4 +1179,90 @@ theorem atolOrig_spec (z : Int) (hlo : -(2 ^ 63) < z) (hhi : z < 2 ^ 63) (tail :
     have : (z.natAbs : Int) = z := by omega
     rw [this]
 
+/-! ### a buffer shorter than text + NUL makes the routine fault: all `L + 1` bytes are needed -/
+
+theorem wr_end (a : List Byte) (i : Nat) (v : Byte) (hi : a.length ≤ i) : wr a i v = none := by
+  induction a generalizing i with
+  | nil => simp [wr]
+  | cons h t ih =>
+    cases i with
+    | zero => simp at hi
+    | succ i => simp [wr, ih i (by simpa using hi)]
+
+theorem divLoop_short (letterA b : Nat) (hb : 2 ≤ b) :
+    ∀ (fuel ud : Nat) (a seg : List Byte), seg.length < (lsd b ud).length →
+      divLoop letterA b fuel ud (a ++ seg) a.length = none := by
+  intro fuel
+  induction fuel with
+  | zero => intro _ _ _ _; rfl
+  | succ f ih =>
+    intro ud a seg hlen
+    match seg with
+    | [] => simp [divLoop, wr_end]
+    | s :: seg' =>
+      by_cases hsmall : ud < b
+      · rw [lsd_small hsmall] at hlen; simp at hlen
+      · have hbig : b ≤ ud := by omega
+        rw [lsd_big hb hbig] at hlen
+        have hd : ud / b ≠ 0 := by
+          have : 0 < ud / b := Nat.div_pos hbig (by omega)
+          omega
+        simp only [divLoop]
+        rw [wr_mid a s seg' a.length _ rfl]
+        simp only [Option.bind_some, hd, ne_eq, not_false_eq_true, if_true]
+        have := ih (ud / b) (a ++ [toaChar letterA (ud % b)]) seg' (by simpa using hlen)
+        simpa using this
+
+theorem toaTail_short (letterA b ud : Nat) (hb : 2 ≤ b) (hud : ud < 2 ^ 64)
+    (a seg : List Byte) (hlen : seg.length ≤ (digits b ud).length) :
+    toaTail letterA b ud (a ++ seg) a.length = none := by
+  have hlen' : seg.length ≤ (lsd b ud).length := by simpa [digits] using hlen
+  unfold toaTail
+  by_cases hlt : seg.length < (lsd b ud).length
+  · rw [divLoop_short letterA b hb 64 ud a seg hlt]; rfl
+  · have heq : seg.length = (lsd b ud).length := by omega
+    have := divLoop_spec letterA b hb 64 ud a seg [] hud (by omega) heq
+    simp only [List.append_nil] at this
+    rw [this]
+    simp only [Option.bind_some]
+    rw [wr_end _ _ _ (by simp [heq])]
+    rfl
+
+theorem i64toa_short (num : BitVec 64) (base : BitVec 8) (hb : 2 ≤ base.toNat) (hb36 : base.toNat ≤ 36)
+    (m : List Byte) (hm : m.length ≤ (canonInt false base.toNat num.toInt).length) :
+    i64toa num m base = none := by
+  have hbase : ¬ (base.toNat < 2 ∨ base.toNat > 36) := by omega
+  unfold i64toa
+  match m with
+  | [] => simp [wr]
+  | x :: tl =>
+    simp only [wr, Option.bind_some, hbase, if_false]
+    by_cases hneg : num.toInt < 0
+    · have hs : num.slt 0#64 = true := (slt_zero_iff64 num).mpr hneg
+      rw [canonInt_length_neg _ _ _ hneg] at hm
+      simp only [hs, if_true]
+      have := toaTail_short 97 base.toNat (0#64 - num).toNat hb
+        (by rw [neg_mag64 num hneg]; exact natAbs_lt64 num) [0x2D#8] tl
+        (by rw [neg_mag64 num hneg]; simp at hm; omega)
+      simpa using this
+    · have hs : ¬ (num.slt 0#64 = true) := fun h => hneg ((slt_zero_iff64 num).mp h)
+      rw [canonInt_length_nonneg _ _ _ hneg] at hm
+      simp only [hs]
+      have := toaTail_short 97 base.toNat num.toNat hb num.isLt [] (0#8 :: tl)
+        (by rw [nonneg_mag64 num hneg]; simpa using hm)
+      simpa using this
+
+theorem u64toa_short (num : BitVec 64) (base : BitVec 8) (hb : 2 ≤ base.toNat) (hb36 : base.toNat ≤ 36)
+    (m : List Byte) (hm : m.length ≤ (canonNat true base.toNat num.toNat).length) :
+    u64toa num m base = none := by
+  have hbase : ¬ (base.toNat < 2 ∨ base.toNat > 36) := by omega
+  unfold u64toa
+  match m with
+  | [] => simp [wr]
+  | x :: tl =>
+    simp only [wr, Option.bind_some, hbase, if_false]
+    rw [canonNat_length] at hm
+    have := toaTail_short 65 base.toNat num.toNat hb num.isLt [] (0#8 :: tl) (by simpa using hm)
+    simpa using this
+
 end Igris.C07
